@@ -80,6 +80,8 @@ def gen_program(rng):
               '    return inner() + %s' % loc]
     elif style == 'global':
         L += ['    global %s' % c, '    %s = %s' % (c, loc), '    return %s' % c]
+        if rng.random() < 0.5:       # the global also has a module-level binding (before the function)
+            L.insert(2, '%s = 0' % c)
     elif style == 'comp':
         v = n()
         L += ['    return sum([%s * %s for %s in %s if %s])' % (v, p1, v, b, v)]
